@@ -261,50 +261,55 @@ func (r *replayer) raceCase(c Case) {
 				break
 			}
 		}
-		// a FRESH program shared by all goroutines from its very first run, on a shared environment
+		// a FRESH program shared by all goroutines from its very first run.  The goroutines run it on up to three
+		// DIFFERENT environments at once (different values in flight), and nothing has been run before them: whatever
+		// the library memoises is cold.  What each run must return is established afterwards, sequentially.
 		prog := progs[0]
+		rm := Mode{Env: "ptr", Optimize: m.Optimize}
+		if m.Env == "map" {
+			rm.Env = "map"
+		}
+		var envs []*Env
+		var asgs []EnvAsg
 		for i := range c.Runs {
-			rc := c.Runs[i]
-			if i >= 3 {
+			if len(envs) >= 3 {
 				break
 			}
-			e, err := BuildEnv(rc.Env, nil)
+			e, err := BuildEnv(c.Runs[i].Env, nil)
 			if err != nil {
 				continue
 			}
-			fresh, _ := expr.Compile(c.Src, opts...)
-			if fresh == nil {
-				continue
-			}
-			rm := Mode{Env: "ptr", Optimize: m.Optimize}
-			if m.Env == "map" {
-				rm.Env = "map"
-			}
-			want := RunMode(c.Src, prog, rm, e, nil)
-			image := append([]byte{}, fresh.Bytecode...)
-			gots := make([]Got, G)
-			start2 := make(chan struct{})
-			for k := 0; k < G; k++ {
-				wg.Add(1)
-				go func(k int) {
-					defer wg.Done()
-					<-start2
-					for j := 0; j < 2; j++ {
-						gots[k] = RunMode(c.Src, fresh, rm, e, nil)
-					}
-				}(k)
-			}
-			close(start2)
-			wg.Wait()
-			r.sum.Executions += 2 * G
-			if string(image) != string(fresh.Bytecode) {
-				r.fail(Failure{Why: "shared-program-modified", Src: c.Src, Mode: m.String(), Env: rc.Env})
-			}
-			for k := 0; k < G; k++ {
-				if ok, why := sameGot(gots[k], want); !ok {
-					r.fail(Failure{Why: "concurrent-run-differs-" + why, Src: c.Src, Mode: m.String(), Env: rc.Env, Got: &gots[k], Got2: &want})
-					break
+			envs = append(envs, e)
+			asgs = append(asgs, c.Runs[i].Env)
+		}
+		fresh, _ := expr.Compile(c.Src, opts...)
+		if fresh == nil || len(envs) == 0 {
+			continue
+		}
+		image := append([]byte{}, fresh.Bytecode...)
+		gots := make([]Got, G)
+		start2 := make(chan struct{})
+		for k := 0; k < G; k++ {
+			wg.Add(1)
+			go func(k int) {
+				defer wg.Done()
+				<-start2
+				for j := 0; j < 2; j++ {
+					gots[k] = RunMode(c.Src, fresh, rm, envs[k%len(envs)], nil)
 				}
+			}(k)
+		}
+		close(start2)
+		wg.Wait()
+		r.sum.Executions += 2 * G
+		if string(image) != string(fresh.Bytecode) {
+			r.fail(Failure{Why: "shared-program-modified", Src: c.Src, Mode: m.String(), Env: asgs[0]})
+		}
+		for k := 0; k < G; k++ {
+			want := RunMode(c.Src, prog, rm, envs[k%len(envs)], nil)
+			if ok, why := sameGot(gots[k], want); !ok {
+				r.fail(Failure{Why: "concurrent-run-differs-" + why, Src: c.Src, Mode: m.String(), Env: asgs[k%len(envs)], Got: &gots[k], Got2: &want})
+				break
 			}
 		}
 	}
